@@ -28,6 +28,14 @@
 #define VERIF_ASAN 0
 #endif
 
+/* MemorySanitizer builds leave the parser object and the working buffers uninitialised on purpose (that is what MSan is for);
+ * harness monitors that compare raw object / buffer bytes would then themselves read uninitialised memory, so they are off there */
+#ifdef VERIF_MSAN
+#define RAW_COMPARES 0
+#else
+#define RAW_COMPARES 1
+#endif
+
 #define QCAP ((int)CAT_UNSOLICITED_CMD_BUFFER_SIZE)
 
 /* ------------------------------------------------------------------ PRNG */
